@@ -1,0 +1,11 @@
+//go:build verif
+
+package vaxis
+
+// VerifRequestedCursor reports the cursor the application has requested for
+// the next frame (the arguments of the last ShowCursor, or not visible after
+// HideCursor). Verification builds only: lets a harness observe where a widget
+// that draws into a Window put its cursor without rendering a frame.
+func (vx *Vaxis) VerifRequestedCursor() (col int, row int, visible bool) {
+	return vx.cursorNext.col, vx.cursorNext.row, vx.cursorNext.visible
+}
